@@ -205,7 +205,9 @@ func c19Child(c *mon.Child) {
 		{`?`, "applies a modifier to nothing"}, {`*`, "applies a modifier to nothing"}, {`+`, "applies a modifier to nothing"}, {`"a" | ?`, "applies a modifier to nothing"}, {`( * )`, "applies a modifier to nothing"},
 		{`@`, "applies a capture to nothing"}, {`"a" @`, "applies a capture to nothing"}, {`@ )`, "applies a capture to nothing"}, {`( @ ) "a"`, "applies a capture to nothing"},
 		{`~`, "applies a negation to nothing"}, {`"a" ~`, "applies a negation to nothing"}, {`~ )`, "applies a negation to nothing"}, {`! !`, "applies a negation to nothing"}, {`!`, "applies a negation to nothing"},
-		{`"a" |`, "contains an empty alternative"}, {`| "a"`, "contains an empty alternative"}, {`"a" | | "b"`, "contains an empty alternative"}, {`( | "a" )`, "contains an empty alternative"}, {`( )`, "contains an empty group"}, {`[ ]`, "contains an empty group"},
+		{`"a" |`, "contains an empty alternative"}, {`| "a"`, "contains an empty alternative"}, {`"a" | | "b"`, "contains an empty alternative"}, {`( | "a" )`, "contains an empty alternative"}, {`( )`, "contains an empty group"}, {`[ ]`, "contains an empty group"}, {`{ }`, "contains an empty group"}, {`{}`, "contains an empty group"}, {`"a" { }`, "contains an empty group"},
+		{`( | )`, "contains an empty alternative"}, {`[ | ]`, "contains an empty alternative"}, {`{ | "a" }`, "contains an empty alternative"}, {`(?= )`, "contains an empty lookahead"}, {`(?! )`, "contains an empty lookahead"},
+		{`@( )`, "captures an empty group"}, {`@[ ]`, "captures an empty group"}, {`@{ }`, "captures an empty group"}, {`~( )`, "negates an empty group"}, {`( )*`, "contains an empty group"}, {`( ( ) )`, "contains an empty group"},
 	}
 	for i, ng := range negs {
 		if c.Batch != 0 {
@@ -247,6 +249,26 @@ func c19Child(c *mon.Child) {
 		}
 		c19Judge(c, key, c19Build(st), desc, why, false)
 		c.End(key)
+	}
+	// deep "diamond" grammars: two alternatives per level, both starting with the next level.
+	// Build (incl. its left-recursion validation) must stay fast: it is a hang monitor case.
+	if c.Batch == 0 {
+		for _, depth := range []int{8, 20, 34, 48} {
+			key := fmt.Sprintf("diamond%d", depth)
+			if !c.Want(key) {
+				continue
+			}
+			desc := fmt.Sprintf("diamond grammar of depth %d (each level: A *Next `@@ \"a\"`; B *Next `| @@ \"b\"`)", depth)
+			c.Begin(key, desc)
+			c.Eval(1)
+			var o c19Outcome
+			o.panicked, o.pv, o.st = mon.Guard(func() { o.err = c19Diamonds[depth]() })
+			o.ok = !o.panicked && o.err == nil
+			c19Judge(c, key, o, desc, "", true)
+			c.Nontrivial(desc)
+			c.Feature("deep_diamond_grammars_built")
+			c.End(key)
+		}
 	}
 	// (3) valid corpus must build; every single-token edit must still terminate without panic
 	corpus := c19Corpus(mon.NewRNG(c.Seed, "C19", "corpus"), c.N(60, 200))
@@ -335,7 +357,7 @@ func init() {
 		Assumptions: []string{"reflect.StructOf cannot express named, recursive or embedded types; those shapes reach Build through the compiled programs of the other checks", "a hang is decided by the child watchdog plus isolated re-run (Build does no search)"},
 		Batches:     func(t string) int { return pick(t, 2, 16) },
 		Floor:       func(t string) int { return pick(t, 10000, 100000) },
-		TimeoutSec:  func(t string) int { return pick(t, 900, 3000) },
+		TimeoutSec:  func(t string) int { return pick(t, 300, 3000) },
 		Child:       c19Child,
 	})
 }
